@@ -19,6 +19,7 @@ func init() {
 		{Name: "puback-requires-reason", Rule: "R3.4", Where: "PubAck", Edits: []Edit{{"puback.go", "\tif len(data) > 2 {\n\t\tb.get(&p.reasonCode)\n\t\tb.getAny(p.propertyMap(), p.appendUserProperty)\n\t}", "\tb.get(&p.reasonCode)\n\tb.getAny(p.propertyMap(), p.appendUserProperty)"}}},
 		{Name: "server-keepalive-into-wrong-field", Rule: "R3.1", Where: "ConnAck", Edits: []Edit{{"connack.go", "\t\tServerKeepAlive:       func() wireType { return &p.serverKeepAlive },", "\t\tServerKeepAlive:       func() wireType { return &p.receiveMax },"}}},
 		{Name: "disconnect-reason-only-rejected", Rule: "R3.4", Where: "Disconnect", Edits: []Edit{{"disconnect.go", "\tb.get(&p.reasonCode)\n\tb.getAny(p.propertyMap(), p.appendUserProperty)\n\treturn b.err", "\tb.get(&p.reasonCode)\n\tvar n vbint\n\tb.get(&n)\n\treturn b.err"}}},
+		{Name: "vbi-width-by-thresholds-off-by-one", Rule: "R3.6", Where: "wire type vbint#width", Edits: []Edit{{"wiretypes.go", "func (v vbint) width() int {\n\treturn v.fill(_LEN, 0)\n}", "func (v vbint) width() int {\n\tswitch {\n\tcase v <= 127:\n\t\treturn 1\n\tcase v <= 16_383:\n\t\treturn 2\n\tcase v <= 2_097_152:\n\t\treturn 3\n\t}\n\treturn 4\n}"}}},
 		{Name: "publish-second-subscription-id-dropped", Rule: "R3.1", Where: "Publish", Edits: []Edit{{"publish.go", "func (p *Publish) AddSubscriptionID(v uint32) {\n\tp.subscriptionIDs = append(p.subscriptionIDs, v)\n}", "func (p *Publish) AddSubscriptionID(v uint32) {\n\tp.subscriptionIDs = []uint32{v}\n}"}}},
 		{Name: "switch-id-as-if-chain", Silent: true, Edits: []Edit{{"buffer.go", "\t\tswitch id {\n\t\tcase UserProperty:\n\t\t\tvar p UserProp\n\t\t\tb.get(&p)\n\t\t\taddProp(p)\n\n\t\tcase SubscriptionID:\n\t\t\tvar sub vbint\n\t\t\tb.get(&sub)\n\t\t\tif b.addSubscriptionID != nil {\n\t\t\t\tb.addSubscriptionID(uint32(sub))\n\t\t\t}\n\n\t\tdefault:\n\t\t\tb.err = fmt.Errorf(\"unknown property id 0x%02x\", id)\n\t\t}", "\t\tif id == UserProperty {\n\t\t\tvar p UserProp\n\t\t\tb.get(&p)\n\t\t\taddProp(p)\n\t\t} else if id == SubscriptionID {\n\t\t\tvar sub vbint\n\t\t\tb.get(&sub)\n\t\t\tif b.addSubscriptionID != nil {\n\t\t\t\tb.addSubscriptionID(uint32(sub))\n\t\t\t}\n\t\t} else {\n\t\t\tb.err = fmt.Errorf(\"unknown property id 0x%02x\", id)\n\t\t}"}}},
 	}})
@@ -194,8 +195,9 @@ func (p *Prog) specFrames(tn string) []specFrame {
 		var toks []wireToken
 		switch tn {
 		case "Connect":
-			for _, will := range []bool{false, true} {
-				for _, cred := range []int{0, 3} {
+			for _, willKind := range []int{0, 1, 2} {
+				will := willKind != 0
+				for _, cred := range []int{0, 1, 2, 3} {
 					exp = map[string]string{}
 					toks = nil
 					t, r := strTok("protocol name", 4)
@@ -204,8 +206,10 @@ func (p *Prog) specFrames(tn string) []specFrame {
 					toks = append(toks, byt("protocol version", 5))
 					exp["ProtocolVersion()"] = "5"
 					flags := int64(2) // clean start
-					if will {
+					if willKind == 1 {
 						flags |= 0x04 | 0x08 | 0x20 // will, QoS 1, retain
+					} else if willKind == 2 {
+						flags |= 0x04 | 0x10 // will, QoS 2, no retain
 					}
 					if cred&1 != 0 {
 						flags |= 0x80
@@ -239,6 +243,10 @@ func (p *Prog) specFrames(tn string) []specFrame {
 						exp["Will().Payload()"] = r
 						exp["Will().QoS()"] = "1"
 						exp["Will().Retain()"] = "true"
+						if willKind == 2 {
+							exp["Will().QoS()"] = "2"
+							exp["Will().Retain()"] = "false"
+						}
 					}
 					if cred&1 != 0 {
 						t, r = strTok("user name", 4)
@@ -250,7 +258,7 @@ func (p *Prog) specFrames(tn string) []specFrame {
 						toks = append(toks, t)
 						exp["Password()"] = r
 					}
-					out = append(out, specFrame{fmt.Sprintf("%s, will=%v, credentials=%d", v.name, will, cred), toks, exp})
+					out = append(out, specFrame{fmt.Sprintf("%s, will=%d, credentials=%d", v.name, willKind, cred), toks, exp})
 				}
 			}
 			continue
@@ -353,6 +361,7 @@ func checkC03(p *Prog, c *Check) {
 	c.Rule("R3.2", "order independence: the same properties in descending identifier order are accepted and give the same accessor values")
 	c.Rule("R3.3", "explicitly transmitted zero-valued properties are accepted and read back as zero / empty")
 	c.Rule("R3.4", "legal short forms: PUBACK-family frames of remaining length 2, 3 and 4; DISCONNECT of length 0 and 1; AUTH of length 0; frames without properties; PUBLISH with and without payload and packet identifier")
+	c.Rule("R3.6", "the sequential reader advances by width() of the decoded value, and width() is what the encoder emits for that value: a valid frame's next field is read from the right offset (shared with C01 R1.4 / C15 R15.5)")
 	c.Rule("R3.5", "the length-prefixed decoder's arithmetic is free of wrap-around, so strings of 65 534 / 65 535 bytes take the same path as short ones (C04 R4.2, re-used)")
 	c.Explanation = "Oracle: abstract valid frames generated from the MQTT v5.0 layout table carried by the checker — not from the library's encoder. Each frame is a token stream (kinds and widths from the specification, values as abstract tags); the decoder's SSA form is evaluated on it with the wire primitives replaced by their contracts, and afterwards every value the frame carries is compared with what the exported accessors report. Variants per packet type: no properties, every allowed property alone, all together ascending and descending (repeatable ones twice), all with explicit zero values, and the legal short forms."
 	c.Trusted = []string{"go/types + go/ssa (x/tools v0.29.0) faithful IR", "the layout table transcribed from the MQTT v5.0 specification (DESIGN Appendix A)", "contracts of the wire primitives as used by the replay; their bodies are checked by C01 R1.4, C04, C09, C15"}
@@ -552,6 +561,8 @@ func checkC03(p *Prog, c *Check) {
 	if !okWrap {
 		c.Unk("R3.5", "length-prefixed decoder", "-", "no length-prefixed decoder found")
 	}
+	// R3.6
+	p.widthAgreement(c, "R3.6")
 	c.Floor("packet types", len(packetTypeNames()), 15, "15 MQTT packet types")
 	var _ ssa.Value
 }
